@@ -54,6 +54,30 @@ impl vstd::std_specs::ops::NegSpecImpl for R32 {
 }
 impl std::ops::Neg for R32 { type Output = R32; #[verifier::external_body] fn neg(self) -> R32 { R32 { v: -self.v } } }
 
+impl vstd::std_specs::ops::AddAssignSpecImpl<R32> for R32 {
+    open spec fn obeys_add_assign_spec() -> bool { true }
+    open spec fn add_assign_req(&self, rhs: R32) -> bool { true }
+    open spec fn add_assign_spec(&self, rhs: R32) -> &R32 { &mk(val(*self) + val(rhs)) }
+}
+impl std::ops::AddAssign<R32> for R32 { #[verifier::external_body] fn add_assign(&mut self, rhs: R32) { unimplemented!() } }
+impl vstd::std_specs::ops::SubAssignSpecImpl<R32> for R32 {
+    open spec fn obeys_sub_assign_spec() -> bool { true }
+    open spec fn sub_assign_req(&self, rhs: R32) -> bool { true }
+    open spec fn sub_assign_spec(&self, rhs: R32) -> &R32 { &mk(val(*self) - val(rhs)) }
+}
+impl std::ops::SubAssign<R32> for R32 { #[verifier::external_body] fn sub_assign(&mut self, rhs: R32) { unimplemented!() } }
+impl vstd::std_specs::ops::MulAssignSpecImpl<R32> for R32 {
+    open spec fn obeys_mul_assign_spec() -> bool { true }
+    open spec fn mul_assign_req(&self, rhs: R32) -> bool { true }
+    open spec fn mul_assign_spec(&self, rhs: R32) -> &R32 { &mk(val(*self) * val(rhs)) }
+}
+impl std::ops::MulAssign<R32> for R32 { #[verifier::external_body] fn mul_assign(&mut self, rhs: R32) { unimplemented!() } }
+impl vstd::std_specs::ops::DivAssignSpecImpl<R32> for R32 {
+    open spec fn obeys_div_assign_spec() -> bool { true }
+    open spec fn div_assign_req(&self, rhs: R32) -> bool { true }
+    open spec fn div_assign_spec(&self, rhs: R32) -> &R32 { &mk(rdiv(val(*self), val(rhs))) }
+}
+impl std::ops::DivAssign<R32> for R32 { #[verifier::external_body] fn div_assign(&mut self, rhs: R32) { unimplemented!() } }
 impl vstd::std_specs::cmp::PartialEqSpecImpl for R32 {
     open spec fn obeys_eq_spec() -> bool { true }
     open spec fn eq_spec(&self, other: &R32) -> bool { val(*self) == val(*other) }
@@ -76,6 +100,11 @@ pub uninterp spec fn rfloor(a: real) -> real;
 pub uninterp spec fn rceil(a: real) -> real;
 pub uninterp spec fn is_integral(a: real) -> bool;
 pub uninterp spec fn rsqrt(a: real) -> real;
+pub uninterp spec fn rsin(a: real) -> real;
+pub uninterp spec fn rcos(a: real) -> real;
+pub uninterp spec fn rtan(a: real) -> real;
+pub uninterp spec fn rto_radians(a: real) -> real;
+pub uninterp spec fn rto_degrees(a: real) -> real;
 
 impl R32 {
     #[verifier::external_body]
@@ -92,6 +121,16 @@ impl R32 {
     pub fn ceil(self) -> (r: R32)
         ensures val(r) == rceil(val(self)), is_integral(val(r)), val(r) >= val(self), val(self) > val(r) - 1real,
     { unimplemented!() }
+    #[verifier::external_body]
+    pub fn sin(self) -> (r: R32) ensures val(r) == rsin(val(self)) { unimplemented!() }
+    #[verifier::external_body]
+    pub fn cos(self) -> (r: R32) ensures val(r) == rcos(val(self)) { unimplemented!() }
+    #[verifier::external_body]
+    pub fn tan(self) -> (r: R32) ensures val(r) == rtan(val(self)) { unimplemented!() }
+    #[verifier::external_body]
+    pub fn to_radians(self) -> (r: R32) ensures val(r) == rto_radians(val(self)) { unimplemented!() }
+    #[verifier::external_body]
+    pub fn to_degrees(self) -> (r: R32) ensures val(r) == rto_degrees(val(self)) { unimplemented!() }
     #[verifier::external_body]
     pub fn sqrt(self) -> (r: R32)
         ensures val(r) == rsqrt(val(self)), val(self) >= 0real ==> (val(r) >= 0real && val(r) * val(r) == val(self)),
